@@ -646,10 +646,8 @@ class Angular(object):
         """
         Difference of two objects (might have different orders).
         """
-        a, b, = sorted([self.c, other.c], key=len)
-        c = b.copy()  # copy the longer array
-        c[:len(a)] -= a  # subtract the shorter array from the relevant part
-        return Angular(c)
+        # (the operands are not interchangeable, unlike in the sum)
+        return self + Angular(-other.c)
 
     def __mul__(self, obj):
         """
